@@ -428,7 +428,7 @@ def bounded_d2e(s, d2e):
 def bounded_sort(s):
     es = importlib.import_module("cij.misc.evec_sort")
     rnd = numpy.random.RandomState(s.seed + 1)
-    n = 40 if s.tier == "quick" else 2000
+    n = 59 if s.tier == "quick" else 2006
     fails, evals = [], 0
     perms_small = [p for d in (2, 3, 4) for p in itertools.permutations(range(d))]
     for t in range(n + len(perms_small)):
@@ -436,7 +436,7 @@ def bounded_sort(s):
             perm = numpy.array(perms_small[t])
             dim = len(perm)
         else:
-            dim = int(rnd.randint(2, 61))
+            dim = 2 + (t - len(perms_small)) % 59          # every dimension 2..60 of the property's quantifier occurs
             perm = rnd.permutation(dim)
         cplx = rnd.rand() < 0.6
         g = rnd.normal(size=(dim, dim)) + (1j * rnd.normal(size=(dim, dim)) if cplx else 0)
@@ -503,7 +503,7 @@ def bounded_sort(s):
             except Exception as e:
                 fails.append({"witness_id": "sort-mismatch", "input": {}, "observed": "raises %r" % (e,), "expected": "RuntimeError"})
                 break
-    s.bounded_standin("C20.evec_sort.recovers_permutation", "all permutations for dimensions 2-4 + %d random cases (dimension 2-60, real and complex unitary bases, arbitrary phases, "
+    s.bounded_standin("C20.evec_sort.recovers_permutation", "all permutations for dimensions 2-4 + %d random cases covering EVERY dimension 2-60 (real and complex unitary bases, arbitrary phases, "
                       "perturbation <= 5 %%), dimension mismatches; seed %d" % (n, s.seed), evals, evals, fails, ["evec_sort.evec_sort"])
 
 
@@ -523,12 +523,13 @@ def render_eig(qs, modes):
 def bounded_load(s):
     el = importlib.import_module("cij.misc.evec_load")
     rnd = numpy.random.RandomState(s.seed + 2)
-    n = 12 if s.tier == "quick" else 300
+    # the layout counts of the property's quantifier (1-6 q-points, 3-60 modes) are a finite space: all 120 pairs on every run (values random)
+    pairs = [(nq, nat) for nq in range(1, 7) for nat in range(1, 21)] * (1 if s.tier == "quick" else 5)
+    n = len(pairs)
     fails, evals = [], 0
     tmp = tempfile.mkdtemp(prefix="c20_")
     try:
-        for t in range(n):
-            nq, nat = int(rnd.randint(1, 7)), int(rnd.randint(1, 21))
+        for t, (nq, nat) in enumerate(pairs):
             npm = 3 * nat
             qs = numpy.round(rnd.uniform(-1, 1, size=(nq, 3)), 4)
             modes = []
@@ -569,7 +570,7 @@ def bounded_load(s):
                 break
     finally:
         shutil.rmtree(tmp, ignore_errors=True)
-    s.bounded_standin("C20.evec_load.matdyn_layout", "%d rendered files in matdyn layout (1-6 q-points, 3-60 modes, negative and positive values at the printed precision), seed %d" % (n, s.seed),
+    s.bounded_standin("C20.evec_load.matdyn_layout", "%d rendered files in matdyn layout: EVERY pair of 1-6 q-points x 3-60 modes, negative and positive values at the printed precision, seed %d" % (n, s.seed),
                       evals, evals, fails, ["evec_load.evec_load", "evec_load._read_q_points", "evec_load._read_modes", "evec_load._read_vecs"])
 
 
